@@ -98,7 +98,7 @@ Proof. exact dec_inj. Qed.
 Print Assumptions C10_dec_injective.
 
 Theorem C10_anchor_loop_has_fuel : forall iss id,
-  exists a, uniq_loop (S (List.length iss)) iss id 0%N = Ok a.
+  exists a, h_uniq_loop (S (List.length iss)) iss id 0%N = Ok a.
 Proof. exact uniq_loop_total. Qed.
 Print Assumptions C10_anchor_loop_has_fuel.
 
